@@ -5,23 +5,28 @@
    Two layers, kept apart on purpose:
 
    REQUIREMENT side (what must happen, independent of the code):
-     Accept(paths)       <=> Injective /\ PrefixFree            (on normalised path components)
+     Accept(paths)       <=> Injective /\ PrefixFree /\ Beneath  (on normalised path components; no leaf/node
+                         conflict, nothing leaves the target)
      IdealRoundTrip      the tree written by an ideal export, read back by "every top-most directory
                          holding a state point file is that job", is the project again
      AcceptExact         THEOREM (checked by TLC on every case)  Accept <=> IdealRoundTrip
      Requirement         outcome of export+import is RoundTripOK \/ RaisedCleanly
-     ExportFrame, ImportFrame, SchemaParseBack
+     RejectBeforeCopy    a map that is not accepted is rejected before any job is copied
+     ExportFrame         nothing is written outside the target          ImportFrame   nothing outside job directories
+     NeverOverwrite      a job that exists in the importing project is never written to
+     SchemaParseBack     a schema string parses back the layout it describes
 
    CONFORMANT side (what signac does, written like signac/import_export.py, including its defects as
    named deviations, each removable by a flag so that a repaired tree is modelled by FixDn = TRUE):
-     AutoPath            _make_schema_based_path_function + _build_job_statepoint_index
-     PathOf              _make_path_function (None / False / format string with {{auto}} / callable)
+     Index, AutoPaths    _build_job_statepoint_index + _make_schema_based_path_function
+     PathsOf             _make_path_function (None / False / format string with {{auto}} / callable)
      ExportOf            _check_path_function_unique, _check_directory_structure_validity, the writers
      ImportOf            _analyze_{directory,zipfile,tarfile}_for_import + the copy executors
      \* DEVIATION D1: zip import decides "is below" with str.startswith: a/1 swallows a/10, a/1.0 ...
      \* DEVIATION D2: archives: a job exported at the archive root ("" - every single-job export) is not found
      \* DEVIATION D3: the uniqueness check is skipped for path=None (True/"True", 1/"1" collide)
      \* DEVIATION D4: the leaf/node check only sees prefixes of EARLIER paths (listing-order dependent)
+     \* DEVIATION D5: a path that leaves the target ("a/../../e" from the value "../../e") is not rejected
 
    Generator spec: every initial state is one case = (jobs in directory-listing order, path spec).
    The listing order is the nondeterministic choice: every permutation of every job set is a case.
@@ -35,10 +40,10 @@ EXTENDS JsonValue, TLC, Json, IOUtils, FiniteSetsExt
 CONSTANTS MODE,      \* "describe" (export the universe) | "universe" (enumerate) | "file" (cases from the harness)
           MAXJOBS,   \* universe mode: all projects of 0..MAXJOBS jobs, all listing orders, all path specs
           PART, NPARTS,  \* universe mode is split over NPARTS TLC processes (job sets with SumSet(S) % NPARTS = PART)
-          FixD1, FixD2, FixD3, FixD4
+          FixD1, FixD2, FixD3, FixD4, FixD5
 
-Flags == [d1 |-> FixD1, d2 |-> FixD2, d3 |-> FixD3, d4 |-> FixD4]
-AllFixed == [d1 |-> TRUE, d2 |-> TRUE, d3 |-> TRUE, d4 |-> TRUE]
+Flags == [d1 |-> FixD1, d2 |-> FixD2, d3 |-> FixD3, d4 |-> FixD4, d5 |-> FixD5]
+AllFixed == [d1 |-> TRUE, d2 |-> TRUE, d3 |-> TRUE, d4 |-> TRUE, d5 |-> TRUE]
 
 -----------------------------------------------------------------------------
 (* text *)
@@ -63,6 +68,7 @@ NormFold(ps, acc) ==
 NormComps(s) == NormFold(SplitOn(s, SL), <<>>)
 NormPath(s)  == IF NormComps(s) = <<>> THEN <<DOT>> ELSE JoinSL(NormComps(s))
 CompPrefix(P, Q) == Len(P) <= Len(Q) /\ SubSeq(Q, 1, Len(P)) = P
+Escapes(C) == C # <<>> /\ C[1] = <<DOT, DOT>>        \* the normalised path leaves the directory it is relative to
 DirName(s) == LET c == NormComps(s) IN IF c = <<>> THEN <<>> ELSE JoinSL(SubSeq(c, 1, Len(c) - 1))
 \* "s lies at or below q", decided on components but written on normalised strings (what a fixed zip import does)
 SubPath(q, s) == q = <<>> \/ q = s \/ StrPrefix(q \o <<SL>>, s)
@@ -99,7 +105,8 @@ Universe == <<
   M1(tA, JStr(<<120, 47, 121>>)), M1(tA, JStr(<<120>>)),                   \* 18 19      "x/y"  "x"
   M2(tA, JInt(1), tB, JStr(<<117>>)), M2(tA, JInt(10), tB, JStr(<<119>>)), \* 20 21      homogeneous two keys
   M1(tA, JFlt(<<48, 46, 53>>)), M1(tA, JBool(FALSE)),                      \* 22 23      0.5 / false
-  M1(tA, JStr(<<120, 95, 49>>)) >>                                         \* 24         "x_1"
+  M1(tA, JStr(<<120, 95, 49>>)),                                           \* 24         "x_1"
+  M1(tA, JStr(<<DOT, DOT, SL, DOT, DOT, SL, 101>>)) >>                     \* 25         "../../e"  (a/../../e = ../e)
 NU == Len(Universe)
 
 RECURSIVE Flat(_, _)           \* _nested_dicts_to_dotted_keys: {<<key path, leaf>>}
@@ -196,7 +203,8 @@ PathsOf(J, ps) ==
 
 -----------------------------------------------------------------------------
 (* REQUIREMENT side *)
-Accept(C) == \A i, j \in 1..Len(C) : i # j => ~CompPrefix(C[i], C[j])      \* injective and prefix-free
+Accept(C) == /\ \A i, j \in 1..Len(C) : i # j => ~CompPrefix(C[i], C[j])   \* injective and prefix-free
+             /\ \A i \in 1..Len(C) : ~Escapes(C[i])                          \* and beneath the target
 \* files of a job, as components that cannot clash with any path component (code points 0..5)
 fSP == <<<<0>>>>  fDOC == <<<<1>>>>  fTOP == <<<<2>>>>  fNEST == <<<<3>>, <<4>>, <<5>>>>
 FilesOf(job) == {fSP, fTOP} \cup (IF job.doc THEN {fDOC} ELSE {}) \cup (IF job.nested THEN {fNEST} ELSE {})
@@ -206,7 +214,7 @@ IdealRoundTrip(J, C) ==
       spDirs == {SubSeq(e[1], 1, Len(e[1]) - 1) : e \in {e \in tree : e[1][Len(e[1])] = <<0>>}}
       top == {d \in spDirs : ~\E q \in spDirs : q # d /\ CompPrefix(q, d)}
       below(d) == {<<SubSeq(e[1], Len(d) + 1, Len(e[1])), e[2]>> : e \in {e \in tree : CompPrefix(d, e[1])}}
-  IN \A i \in 1..Len(J) : C[i] \in top /\ below(C[i]) = {<<f, i>> : f \in FilesOf(J[i])}
+  IN \A i \in 1..Len(J) : ~Escapes(C[i]) /\ C[i] \in top /\ below(C[i]) = {<<f, i>> : f \in FilesOf(J[i])}
 
 -----------------------------------------------------------------------------
 (* CONFORMANT side: export *)
@@ -223,6 +231,7 @@ ExportOf(J, pr, pskind, kind, F) ==        \* pr = PathsOf(J, ps)
       clean == \/ \E i \in 1..n : ~pr[i].ok
                \/ uniq /\ dup
                \/ IF F.d4 THEN CheckFixed(P) ELSE CheckAsCode(P)
+               \/ F.d5 /\ \E i \in 1..n : Escapes(C[i])                                        \* DEVIATION D5
       \* directory target: shutil.copytree refuses an existing destination
       bad == IF kind = "dir" THEN {i \in 1..n : \E j \in 1..(i - 1) : CompPrefix(C[i], C[j])} ELSE {}
   IN IF clean THEN [res |-> "clean", ncopied |-> 0, P |-> P]
@@ -250,7 +259,9 @@ TarScan(rest, ids, skip, rootOk) ==
 ImportOf(J, P, kind, F, cb) ==
   LET n == Len(J)
       N == [i \in 1..n |-> JoinSL(NormComps(P[i]))]
-      Strs == {N[i] : i \in 1..n}
+      Esc  == {i \in 1..n : Escapes(NormComps(P[i]))}
+      \* a directory target does not contain what was written outside of it
+      Strs == {N[i] : i \in IF kind = "dir" THEN (1..n) \ Esc ELSE 1..n}
       Sorted == SetToSortSeq(Strs, LexLess)
       LastDup(i) == \A j \in (i + 1)..n : N[j] # N[i]           \* duplicate archive members: the last one is read
       ZipPre(q, s) == IF F.d1 THEN SubPath(q, s) ELSE StrPrefix(q, s)
@@ -259,28 +270,41 @@ ImportOf(J, P, kind, F, cb) ==
                [] kind = "tar" -> TarScan(Sorted, {}, {}, F.d2 \/ cb)
       Ident(i) == N[i] \in Ids /\ LastDup(i)
       Into(i)  == IF kind = "zip" THEN {j \in 1..n : ZipPre(N[i], N[j]) /\ SubPath(N[i], N[j])}
-                  ELSE {j \in 1..n : SubPath(N[i], N[j])}
+                  ELSE {j \in (1..n) \ (IF kind = "dir" THEN Esc ELSE {}) : SubPath(N[i], N[j])}
       Stray    == IF kind = "zip"
                   THEN UNION {{j \in 1..n : ZipPre(N[i], N[j]) /\ ~SubPath(N[i], N[j])} : i \in {i \in 1..n : Ident(i)}}
                   ELSE {}
       Covers(i, j) == (J[j].doc => J[i].doc) /\ (J[j].nested => J[i].nested)
       Exact(i) == Ident(i) /\ \A j \in Into(i) \ {i} : N[j] = N[i] /\ Covers(i, j)
-  IN [imp |-> [i \in 1..n |-> Ident(i)], exact |-> [i \in 1..n |-> Exact(i)], stray |-> Stray # {}]
+      none == [i \in 1..n |-> FALSE]
+  IN \* tarfile.extractall(filter="data") refuses members outside the extraction directory (Python >= 3.12): clean raise
+     \* (after the archive was analysed: ident is what the analysis identified)
+     IF kind = "tar" /\ Esc # {}
+     THEN [ident |-> [i \in 1..n |-> Ident(i)], imp |-> none, exact |-> none, stray |-> FALSE, raises |-> TRUE, outside |-> FALSE]
+     ELSE [ident |-> [i \in 1..n |-> Ident(i)], imp |-> [i \in 1..n |-> Ident(i)], exact |-> [i \in 1..n |-> Exact(i)],
+           stray |-> Stray # {}, raises |-> FALSE, outside |-> kind = "dir" /\ Esc # {}]
 
 Outcome(J, pr, pskind, kind, F, cb) ==
   LET n == Len(J)
       ex == ExportOf(J, pr, pskind, kind, F)
       none == [i \in 1..n |-> FALSE]
+      \* a directory export that stops after k jobs has already written the escaping ones among them
+      escd == kind = "dir" /\ \E i \in 1..ex.ncopied : Escapes(NormComps(ex.P[i]))
   IN IF ex.res # "ok"
-     THEN [exp |-> ex.res, ncopied |-> ex.ncopied, imp |-> none, exact |-> none, stray |-> FALSE, rt |-> ex.res = "clean"]
+     THEN [exp |-> ex.res, ncopied |-> ex.ncopied, ident |-> none, imp |-> none, exact |-> none, stray |-> FALSE, impraise |-> FALSE,
+           outside |-> ex.res = "dirty" /\ escd, rt |-> ex.res = "clean"]
      ELSE LET im == ImportOf(J, ex.P, kind, F, cb) IN
-          [exp |-> "ok", ncopied |-> n, imp |-> im.imp, exact |-> im.exact, stray |-> im.stray,
-           rt |-> (\A i \in 1..n : im.imp[i] /\ im.exact[i]) /\ ~im.stray]       \* RoundTripOK
+          [exp |-> "ok", ncopied |-> n, ident |-> im.ident, imp |-> im.imp, exact |-> im.exact, stray |-> im.stray, impraise |-> im.raises,
+           outside |-> im.outside,
+           \* RoundTripOK, or the import raised before copying; writing outside the target is never acceptable
+           rt |-> ~im.outside /\ (im.raises \/ ((\A i \in 1..n : im.imp[i] /\ im.exact[i]) /\ ~im.stray))]
 
-\* which deviation explains a failing outcome: the first of D3, D4, D2, D1 whose (cumulative) repair satisfies the requirement
+\* which deviation explains a failing outcome: the first of D5, D3, D4, D2, D1 whose (cumulative) repair satisfies the requirement
 Blame(J, pr, pskind, kind, F, cb) ==
-  LET F3 == [F EXCEPT !.d3 = TRUE]  F4 == [F3 EXCEPT !.d4 = TRUE]  F2 == [F4 EXCEPT !.d2 = TRUE]  F1 == [F2 EXCEPT !.d1 = TRUE]
+  LET F5 == [F EXCEPT !.d5 = TRUE]
+      F3 == [F5 EXCEPT !.d3 = TRUE]  F4 == [F3 EXCEPT !.d4 = TRUE]  F2 == [F4 EXCEPT !.d2 = TRUE]  F1 == [F2 EXCEPT !.d1 = TRUE]
   IN IF Outcome(J, pr, pskind, kind, F, cb).rt THEN "none"
+     ELSE IF Outcome(J, pr, pskind, kind, F5, cb).rt THEN "D5"
      ELSE IF Outcome(J, pr, pskind, kind, F3, cb).rt THEN "D3"
      ELSE IF Outcome(J, pr, pskind, kind, F4, cb).rt THEN "D4"
      ELSE IF Outcome(J, pr, pskind, kind, F2, cb).rt THEN "D2"
@@ -368,9 +392,19 @@ NoUnexplained == LET pr == PathsOf(c.J, PS) IN \A k \in Kinds : \A cb \in BOOLEA
 RepairedOk == LET pr == PathsOf(c.J, PS) IN \A k \in Kinds : \A cb \in BOOLEAN : Outcome(c.J, pr, PS.kind, k, AllFixed, cb).rt
 \* import never writes outside the job directories of the importing project
 ImportFrame == LET pr == PathsOf(c.J, PS) IN \A k \in Kinds : \A cb \in BOOLEAN : ~Outcome(c.J, pr, PS.kind, k, Flags, cb).stray
-\* export writes only beneath its target: no normalised destination leaves the target
-ExportFrame == LET pr == PathsOf(c.J, PS)  comps == CompsOf(pr) IN
-  AllOk(pr) => \A i \in 1..Len(c.J) : comps[i] = <<>> \/ comps[i][1] # <<DOT, DOT>>
+\* export writes only beneath its target (holds for the repaired model only: DEVIATION D5)
+ExportFrame == LET pr == PathsOf(c.J, PS) IN \A k \in Kinds : ~Outcome(c.J, pr, PS.kind, k, Flags, FALSE).outside
+\* import into a project in which the jobs E already exist.  As the code: copytree refuses an existing job directory
+\* (DestinationExistsError; directories are copied one by one in crawl order until then), archives test
+\* os.path.exists(job.path) for every identified job before anything is copied.
+ImportInto(o, kind, E) ==        \* o = Outcome(...) of the export + import into an empty project
+  LET ident == {i \in 1..Len(o.ident) : o.exp = "ok" /\ o.ident[i]}
+  IN [raises |-> ident \cap E # {} \/ o.impraise, exists |-> ident \cap E # {},
+      maywrite |-> IF (ident \cap E # {} /\ kind # "dir") \/ o.impraise THEN {} ELSE ident \ E]
+\* import never overwrites an existing job
+NeverOverwrite == LET pr == PathsOf(c.J, PS) IN \A k \in Kinds :
+                    LET o == Outcome(c.J, pr, PS.kind, k, Flags, FALSE) IN
+                    \A E \in SUBSET (1..Len(c.J)) : ImportInto(o, k, E).maywrite \cap E = {}
 \* a schema string parses back the layout it describes
 SchemaCase == PS.kind = "none" /\ SchemaApplicable(c.J)
 SchemaParseBack == SchemaCase => LET sch == SchemaOf(c.J)  comps == CompsOf(PathsOf(c.J, PS)) IN \A i \in 1..Len(c.J) :
@@ -382,8 +416,9 @@ SchemaParseBack == SchemaCase => LET sch == SchemaOf(c.J)  comps == CompsOf(Path
    DestinationExistsError exactly when that job is identified (never overwrite) *)
 OutKind(J, pr, pskind, k, cb) == LET o == Outcome(J, pr, pskind, k, Flags, cb) IN
   [exp |-> o.exp, ncopied |-> o.ncopied, imp |-> o.imp, exact |-> o.exact, stray |-> o.stray, rt |-> o.rt,
+   impraise |-> o.impraise, outside |-> o.outside,
    blame |-> Blame(J, pr, pskind, k, Flags, cb),
-   existing |-> Len(J) >= 1 /\ o.exp = "ok" /\ o.imp[1]]
+   existing |-> Len(J) >= 1 /\ ImportInto(o, k, {1}).raises, existingdee |-> Len(J) >= 1 /\ ImportInto(o, k, {1}).exists]
 OutCase(x) == LET J == x.J  ps == PathSpecs[x.ps]  n == Len(J)
                   pr == PathsOf(J, ps)
                   comps == CompsOf(pr)
@@ -394,8 +429,9 @@ OutCase(x) == LET J == x.J  ps == PathSpecs[x.ps]  n == Len(J)
    doc |-> [i \in 1..n |-> J[i].doc], nested |-> [i \in 1..n |-> J[i].nested],
    pathsok |-> allok, paths |-> [i \in 1..n |-> pr[i].s],
    accept |-> allok /\ Accept(comps),
-   safe |-> allok => \A i \in 1..n : /\ (pr[i].s = <<>> \/ pr[i].s[1] # SL)      \* never hand the real code an escaping path
-                                       /\ (comps[i] = <<>> \/ comps[i][1] # <<DOT, DOT>>),
+   safe |-> allok => \A i \in 1..n : /\ (pr[i].s = <<>> \/ pr[i].s[1] # SL)      \* sandbox safety of the replay
+                                       /\ ((\E t \in 1..Len(SplitOn(pr[i].s, SL)) : SplitOn(pr[i].s, SL)[t] = <<DOT, DOT>>) => pr[i].s = NormPath(pr[i].s))
+                                       /\ (Len(comps[i]) < 2 \/ comps[i][2] # <<DOT, DOT>>),   \* at most one level up
    dir |-> OutKind(J, pr, ps.kind, "dir", FALSE), zip |-> OutKind(J, pr, ps.kind, "zip", FALSE), tar |-> OutKind(J, pr, ps.kind, "tar", FALSE),
    cbdir |-> OutKind(J, pr, ps.kind, "dir", TRUE), cbzip |-> OutKind(J, pr, ps.kind, "zip", TRUE), cbtar |-> OutKind(J, pr, ps.kind, "tar", TRUE),
    schema |-> IF sc THEN [t \in 1..Len(sch) |-> [key |-> sch[t].key, ty |-> sch[t].ty]] ELSE <<>>]
